@@ -30,7 +30,18 @@ RULE = (
 ASSUMPTIONS = ["each data variable is encoded by a single factor expression (as the property requires)"]
 
 CONTRASTS = [None, None, "", "contr.treatment", "contr.SAS", "contr.sum", "contr.helmert", "contr.helmert(reverse=False)",
-             "contr.helmert(scale=True)", "contr.diff", "contr.diff(backward=False)", "contr.poly", "BASE"]
+             "contr.helmert(scale=True)", "contr.diff", "contr.diff(backward=False)", "contr.poly", "BASE", "ONEHOT"]
+
+
+def onehot(values):
+    """A user-supplied encoding of the documented extension kind: a mapping of indicator columns that spans the intercept and
+    names the column to drop when a reduced form is asked for."""
+    from formulaic.materializers.types import FactorValues
+
+    vals = list(values)
+    levels = sorted(set(vals))
+    return FactorValues({lv: np.array([1.0 if v == lv else 0.0 for v in vals]) for lv in levels}, kind="numerical",
+                        spans_intercept=True, drop_field=levels[0], format="{name}[{field}]", encoded=False)
 
 
 def rand_names(rng, k):
@@ -55,6 +66,8 @@ def build_case(rng, ncat, nnum, levels, terms_idx=None, exhaustive=False):
             fexpr[c] = c
         elif k == "":
             fexpr[c] = f"C({c})"
+        elif k == "ONEHOT":
+            fexpr[c] = f"onehot({c})"
         elif k == "BASE":
             fexpr[c] = f"C({c}, contr.treatment(base='{rng.choice(lv[c])}'))"
         else:
@@ -147,7 +160,7 @@ def judge(case) -> Outcome:
     try:
         with quiet():
             form = Formula(f, _ordering=case["ordering"])
-            kw = {"output": case["output"], "context": {}}
+            kw = {"output": case["output"], "context": {"onehot": onehot}}
             if case["cluster"]:
                 kw["cluster_by"] = case["cluster"]
             red = form.get_model_matrix(df, ensure_full_rank=True, **kw)
